@@ -13,8 +13,8 @@
   schedule-level witnesses `C01_lost_answer_witness` / `C01_post_sse_lost_witness` (defect D01).
   Safety (own answer, at most once) holds for every schedule on all transports, whatever the counter.
 
-  Server-side id echo (`C01_echo`) is covered by the differential run only (component `pending`, part iii): no
-  `Rpc` model exists in this tree yet.
+  Server-side id echo: `C01_echo` in `Mcp.Props.C01Echo` (over the `Rpc` model of the three servers' request paths), plus the
+  differential run of component `pending`, part iii (raw peers, six server modes, every id class).
 -/
 import Mcp.Model.Pending
 import Mcp.Gen.PendingFacts
